@@ -43,7 +43,7 @@ PREFIX = "decoy_"
 def budget(tier):
     if tier == "quick":
         return {"examples": 1600, "shards": 16, "time_s": 60}
-    return {"examples": 16000, "shards": 16, "time_s": 900}
+    return {"examples": 160000, "shards": 16, "time_s": 1500}
 
 
 def _proteins(case):
@@ -274,7 +274,7 @@ def extra(tier, seed, shard, nshards, stats):
 
     rnd = random.Random(seed * 7919 + shard)  # batch selection only; derived from VERIF_SEED
     batch = []
-    nb = 40 if tier == "quick" else 400
+    nb = 40 if tier == "quick" else 1500
     while len(batch) < nb:
         np_, nq = rnd.randint(3, 7), rnd.randint(2, 6)
         rows = []
